@@ -120,6 +120,7 @@ def run(ctx):
     cases = thin(join(r), rnd, 1 if q else 3)
     ctx.log("single mutations: %d cases over %d bases" % (len(cases), len(r.tagged.get("BASE", []))))
     ctx.replay(cases, timeout=2400, jobs=12)
+    ctx.log("single mutations replayed")
     # 2. random pairs of mutations over larger bases
     va2 = alphabet(rnd, K, 12)
     specs2 = {polyspec([rnd.randint(1, 9) for _ in range(rnd.randint(1, 3))], rnd.randrange(1, 90)) for _ in range(4)}
@@ -136,6 +137,7 @@ def run(ctx):
     cases2 = list(uniq.values())
     ctx.log("random mutation pairs: %d distinct cases" % len(cases2))
     ctx.replay(cases2, timeout=2400, jobs=12)
+    ctx.log("random pairs replayed")
     if ctx.counters.get("base_ok", 0) == 0:
         raise vlib.Infra("no unmutated model encoding was accepted by the real decoders: the machinery is broken")
     if ctx.counters.get("base_rejected", 0) or ctx.counters.get("base_differs_from_encoder_output", 0):
